@@ -249,7 +249,7 @@ def gen_real(rnd):
     L = rnd.randint(1, 5)
     return {'ff': ffname, 'L': L, 'seed': rnd.randrange(10 ** 9), 'scramble': rnd.random() < 0.5,
             'junk': rnd.choice([0, 0, 0, 1, 2]), 'nter': rnd.random() < 0.8, 'cter': rnd.random() < 0.8,
-            'side': rnd.random() < 0.6}
+            'side': rnd.random() < 0.6, 'requested': rnd.random() < 0.4}
 
 
 def build_real(case):
@@ -270,6 +270,17 @@ def build_real(case):
                 if m in ff.modifications and rnd.random() < 0.6:
                     mods.append((ri, m))
     mol, truth = atomistic.build_peptide(ff, seq, rnd, mods=mods, scramble_ptm_names=case['scramble'], junk=case['junk'])
+    if case.get('requested'):
+        # the modifications are also REQUESTED, as -nter/-cter/-modify do through AnnotateMutMod: RepairGraph then builds them into
+        # the reference residue and hands them to the canonicaliser as already known
+        by_res = {}
+        for ri, m in mods:
+            by_res.setdefault(ri, []).append(m)
+        rids = sorted({d['resid'] for _, d in mol.nodes(data=True)})
+        for n, d in mol.nodes(data=True):
+            ri = rids.index(d['resid'])
+            if ri in by_res and not d.get('junk'):
+                d['modification'] = list(by_res[ri])
     rep = util.shared(RepairGraph, include_graph=False).run_molecule(mol)
     return rep, truth, seq, mods
 
